@@ -36,6 +36,113 @@ type Oracle func(x *Exec) []Finding
 
 var Oracles = map[string]Oracle{}
 
+// Applies says whether an execution actually exercises a property (its antecedent holds), so that
+// the evidence can report how many executions were non-vacuous for it.
+var Applies = map[string]func(x *Exec) bool{}
+
+func applies(prop string, x *Exec) bool {
+	if f := Applies[prop]; f != nil {
+		return f(x)
+	}
+	return true
+}
+
+func hasTag(toks []Tok) bool {
+	for _, t := range toks {
+		if isTag(t) {
+			return true
+		}
+	}
+	return false
+}
+
+func init() {
+	Applies["C06"] = func(x *Exec) bool {
+		for _, n := range c06Raw {
+			if x.Model.Known(n) {
+				return false
+			}
+		}
+		for _, t := range x.InToks {
+			if isTag(t) && (unsafeName(t.N) || inSet(x.Model.Skip, t.N)) {
+				return false
+			}
+		}
+		return hasTag(x.InToks)
+	}
+	Applies["C08"] = func(x *Exec) bool {
+		if _, ok := openStack(x.InToks); !ok {
+			return false
+		}
+		for _, t := range x.InToks {
+			if t.T == "start" && !unsafeName(t.N) && !x.Model.Known(t.N) && inSet(x.Model.Skip, t.N) && !VoidEls[t.N] {
+				return true
+			}
+		}
+		return false
+	}
+	Applies["C09"] = func(x *Exec) bool {
+		_, ok := openStack(x.InToks)
+		return ok && hasTag(x.InToks)
+	}
+	Applies["C07"] = func(x *Exec) bool {
+		return hasTag(x.InToks) && x.Model.Conforming(x.InToks) && string(Serialise(x.InToks, nil)) == string(x.Input)
+	}
+	Applies["C20"] = func(x *Exec) bool { return hasTag(x.OutToks) && (x.Model.InClass20() || ugcException(x)) }
+	Applies["C05"] = func(x *Exec) bool {
+		for _, t := range x.InToks {
+			if isTag(t) && unsafeName(t.N) {
+				return true
+			}
+		}
+		return false
+	}
+	Applies["C03"] = func(x *Exec) bool {
+		if !x.Model.Parseable {
+			return false
+		}
+		for _, t := range x.InToks {
+			for _, a := range t.A {
+				if UrlPos(t.N, a.K) {
+					return true
+				}
+			}
+		}
+		return false
+	}
+	Applies["C11"] = func(x *Exec) bool {
+		if !x.Model.anyLinkOption() {
+			return false
+		}
+		for _, et := range emittedTags(x) {
+			if _, ok := firstAttr(et.After, "href"); ok && hrefEls[et.N] {
+				return true
+			}
+		}
+		return false
+	}
+	Applies["C12"] = func(x *Exec) bool {
+		for _, t := range x.OutToks {
+			if (x.Model.CrossOrigin && crossEls[t.N] || x.Model.SandboxOn && t.N == "iframe") && len(t.A) > 0 {
+				return true
+			}
+		}
+		return false
+	}
+	Applies["C10"] = func(x *Exec) bool {
+		for _, t := range x.InToks {
+			for _, a := range t.A {
+				if a.K == "style" && x.Model.hasStyleRules(t.N) && x.Model.Known(t.N) {
+					return true
+				}
+			}
+		}
+		return false
+	}
+	Applies["C02"] = func(x *Exec) bool { return len(emittedTags(x)) > 0 }
+	Applies["C01"] = func(x *Exec) bool { return hasTag(x.InToks) }
+}
+
 func isTag(t Tok) bool { return t.T == "start" || t.T == "end" || t.T == "self" }
 
 var VoidEls = map[string]bool{"area": true, "base": true, "br": true, "col": true, "embed": true, "frame": true,
@@ -323,7 +430,7 @@ func oracleC08(x *Exec) []Finding {
 			}
 		case "comment":
 			m := strings.TrimSpace(t.D)
-			if len(m) >= 3 && count(m) == 1 && inside[i] && strings.Contains(outAll, m) {
+			if len(m) >= 3 && count(m) == 1 && inside[i] && inOutputData(x.OutToks, m) {
 				fs = append(fs, Finding{"C08", "leak-comment", fmt.Sprintf("comment %q inside a skipped element appears in the output", m)})
 			}
 		case "start", "self":
@@ -331,7 +438,7 @@ func oracleC08(x *Exec) []Finding {
 				continue
 			}
 			for _, a := range t.A {
-				if len(a.V) >= 3 && count(a.V) == 1 && strings.Contains(outAll, a.V) {
+				if len(a.V) >= 3 && count(a.V) == 1 && inOutputData(x.OutToks, a.V) {
 					fs = append(fs, Finding{"C08", "leak-markup", fmt.Sprintf("attribute value %q of a tag inside a skipped element appears in the output", a.V)})
 				}
 			}
@@ -355,6 +462,24 @@ func oracleC08(x *Exec) []Finding {
 		}
 	}
 	return fs
+}
+
+// inOutputData: does s occur in the character data, comment data or an attribute value of the output?
+func inOutputData(toks []Tok, s string) bool {
+	if strings.Contains("nofollow noreferrer noopener _blank anonymous", s) {
+		return false // the sanitiser's own vocabulary proves nothing about where it came from
+	}
+	for _, t := range toks {
+		if strings.Contains(t.D, s) {
+			return true
+		}
+		for _, a := range t.A {
+			if strings.Contains(a.V, s) {
+				return true
+			}
+		}
+	}
+	return false
 }
 
 func init() {
